@@ -43,6 +43,14 @@ CLAIMED["C10"] = {
     "technique": "panic-edge census + early-exit chain extraction + ring normal form in Z/2^32 over MIR terms",
 }
 
+CLAIMED["C13"] = {
+    "category": "other",
+    "text": "Structural part of the statement, decided exactly: the scanned window is buffer[..min(len, 8192)], the scan predicate is from_le_bytes(window) == MAGIC, the exits in dominance order (misaligned buffer, no match, i % 8 != 0, length field unavailable, claimed range outside the buffer, success) with their guards and the exact returned slice/index terms, and a panic-edge census of find_header and its closure with every site discharged. Not decided: that position() returns the *first* match (std contract).",
+    "design_ref": "DESIGN.md §4 C13",
+    "note": TB + "; first-occurrence exactness rests on the std contracts of slice::windows and Iterator::position",
+    "technique": "panic-edge census + early-exit chain extraction + value-term matching of the returned slices",
+}
+
 PENDING = "check not yet built in this session (machinery under construction; see DESIGN.md §9 build order) - not claimed until its premises run, pass on the repaired tree and fire on seeded breaks"
 NOT_APPLICABLE = {("C%02d" % i): PENDING for i in range(1, 21)}
 
